@@ -41,6 +41,20 @@ def ids_for(side, i=0):
 PEER = {"A": "B", "B": "A", "S": "S"}
 
 
+def boundary_strings():
+    """byte strings on length boundaries (0, 1, 31, 32, 33, 63, 64, 65, 96, 128) x distinguished trailing bytes - the alphabet
+    for passwords and identities that padding / pre-hashing / trimming shortcuts are sensitive to"""
+    out = []
+    for n in (0, 1, 31, 32, 33, 63, 64, 65, 96, 128):
+        for tail in (b"", b"\x01", b"\x02\x02", b"\x00", b"\x80", b"\xff", b" ", b"\n"):
+            if len(tail) > n:
+                continue
+            s = bytes([0x41 + (i % 23) for i in range(n - len(tail))]) + tail
+            if s not in out:
+                out.append(s)
+    return out
+
+
 def instances(names, acc):
     out = []
     for n in names:
@@ -139,6 +153,16 @@ def pattern_scalars(q, level=1):
     for b in bits:
         out.append(((1 << b) - 1) % q)
         out.append((1 << (b - 1)) % q)
+    # the band between the top power of two and the order (for Ed25519: [2^252, L), where "reduced?" checks take their slow
+    # path), and the values just below the order
+    t = 1 << (q.bit_length() - 1)
+    gap = q - t
+    for v in [1, 2, 0x7f, 0x80, 0xee, 0xff, 0x100, 0x101, 0xffff, 0x10000, gap // 2, gap // 3, gap - 1, gap - 0x100] + \
+             [1 << k for k in range(0, max(1, gap.bit_length() - 1), 1 if level else 8)]:
+        if 0 < v < gap:
+            out.append(t + v)
+    for v in (1, 2, 3, 0x10, 0xff, 0x100, 0xffff):
+        out.append(q - v)
     ded = []
     for x in out:
         if x not in ded:
@@ -165,6 +189,61 @@ def pattern_element_scalars(R, start_elem, step_elem, want_positions=None, value
     return found
 
 
+def modulus_prefix_scalars(R, start_elem, step_elem, limit=400000):
+    """scalars k such that enc(start + k*step) shares its most significant 1 and 2 bytes with the encoding of the field
+    modulus (the boundary of every range check; multi-limb comparisons take their slow path there).  {("p-prefix", n): k}"""
+    if R.kind == "int":
+        pm = R.p.to_bytes(R.esize, "big")
+        pre = lambda b: (b[:1] == pm[:1], b[:2] == pm[:2])
+    else:
+        qm = (R.Q - 1).to_bytes(32, "little")
+        pre = lambda b: ((b[31] & 0x7f) == qm[31], (b[31] & 0x7f) == qm[31] and b[30] == qm[30])
+    if R.kind == "int":
+        lowm = pm[-1]
+        low = lambda b: b[-1]
+    else:
+        lowm = qm[0] + 1          # low byte of Q itself
+        low = lambda b: b[0]
+    found = {}
+    e = start_elem
+    for k in range(limit):
+        b = R.enc(e)
+        one, two = pre(b)
+        if one:
+            if ("p-prefix", 1) not in found:
+                found[("p-prefix", 1)] = k
+            # most significant byte equal to the modulus's AND least significant byte at/above resp. below the modulus's
+            if low(b) >= lowm and ("p-prefix1+low>=", 1) not in found:
+                found[("p-prefix1+low>=", 1)] = k
+            if low(b) < lowm and ("p-prefix1+low<", 1) not in found:
+                found[("p-prefix1+low<", 1)] = k
+        if two:
+            found[("p-prefix", 2)] = k
+            if len(found) >= 4:
+                break
+        if k > limit // 2 and ("p-prefix", 2) in found:
+            break
+        e = R.add(e, step_elem)
+    return found
+
+
+def element_pattern_multiples(R, level=1):
+    """{class: k} multiples k*Base whose ENCODING covers the byte-pattern and modulus-prefix classes (for codec/decoder checks)"""
+    out = dict(pattern_element_scalars(R, R.base(), R.base(), pattern_positions(R, level)))
+    out = {key: k + 1 for key, k in out.items()}
+    lim = 400000 if R.kind == "int" else 100000
+    for key, k in modulus_prefix_scalars(R, R.base(), R.base(), lim if level else lim // 3).items():
+        out[key] = k + 1
+    name = {"ed": "ParamsEd25519"}.get(R.kind) if R.kind == "ed" and getattr(R, "Q", 0) > 10**6 else None
+    if R.kind == "int":
+        for n in ("Params1024", "Params2048", "Params3072"):
+            if T.ref_shipped_group(n).p == R.p:
+                name = n
+    for c, k in rare_multiples(name).items():
+        out[("rare", c)] = k
+    return out
+
+
 def pattern_positions(R, level):
     n = R.esize
     if level or n <= 32:
@@ -173,9 +252,10 @@ def pattern_positions(R, level):
 
 
 def pattern_sessions(inst, side, pw, level):
-    """[(x, inbound, tag)] for the shipped groups: own scalars whose MESSAGE covers every (byte position, 00/ff/80) class,
-    peer scalars for which the shared element K = x*y*G covers them (x fixed), and scalars with a distinguished byte at every
-    position / every bit length.  level 0 = quick subset."""
+    """[(x, y, inbound, tag)] for the shipped groups: own scalars x whose MESSAGE covers every (byte position, 00/ff/80) class
+    and the modulus-prefix classes, peer scalars y whose message (the INBOUND element) covers them, peer scalars for which the
+    shared element K = x*y*G covers them, and scalars with a distinguished byte at every position / every bit length.
+    level 0 = quick subset.  inbound = message(peer, w, y)."""
     from ..ref import spake2 as RS
     R, rp, q = inst.ref, inst.rp, inst.q
     w = R.pw_scalar(pw)
@@ -184,21 +264,64 @@ def pattern_sessions(inst, side, pw, level):
     out = []
     pos = pattern_positions(R, level)
     y0 = 0x1234567 % q
-    inbound0 = RS.message(rp, peer, w, y0)
-    own = pattern_element_scalars(R, R.mul(rp.blind(side), w), G, pos)
-    for key, k in sorted(own.items()):
-        out.append((k % q, inbound0, "msg[%d]=%02x" % key))
     x0 = 0x7654321 % q
+    lim = 400000 if level else 120000
+    if R.kind != "int":
+        lim //= 4
+    inbound0 = RS.message(rp, peer, w, y0)
+    own = dict(pattern_element_scalars(R, R.mul(rp.blind(side), w), G, pos))
+    own.update(modulus_prefix_scalars(R, R.mul(rp.blind(side), w), G, lim))
+    for key, k in sorted(own.items(), key=lambda kv: str(kv[0])):
+        out.append((k % q, y0, inbound0, "msg[%s]=%s" % key))
+    theirs = dict(pattern_element_scalars(R, R.mul(rp.blind(peer), w), G, pos))
+    theirs.update(modulus_prefix_scalars(R, R.mul(rp.blind(peer), w), G, lim))
+    for key, k in sorted(theirs.items(), key=lambda kv: str(kv[0])):
+        out.append((x0, k % q, RS.message(rp, peer, w, k % q), "inbound[%s]=%s" % key))
     ks = pattern_element_scalars(R, R.identity, R.mul(G, x0), pos)
     for key, k in sorted(ks.items()):
         if k == 0:
             continue
-        out.append((x0, RS.message(rp, peer, w, k % q), "K[%d]=%02x" % key))
+        out.append((x0, k % q, RS.message(rp, peer, w, k % q), "K[%d]=%02x" % key))
     for x in pattern_scalars(q, level):
-        out.append((x, inbound0, "scalar-pattern"))
+        out.append((x, y0, inbound0, "scalar-pattern"))
     seen, ded = set(), []
-    for x, inb, tag in out:
-        if (x, inb) not in seen:
-            seen.add((x, inb))
-            ded.append((x, inb, tag))
+    for x, y, inb, tag in out:
+        if (x, y) not in seen:
+            seen.add((x, y))
+            ded.append((x, y, inb, tag))
     return ded
+
+
+_RARE = {}
+
+
+def rare_multiples(name):
+    """{class: k}: frozen multiples k*Base of a shipped group whose encoding falls into a rare structural class (two leading or
+    trailing zero bytes, leading bytes equal to the modulus's, combined with the low byte above/below the modulus's ...), found
+    once by tools/make_rare.py with the reference arithmetic (facts about the published groups)"""
+    if not _RARE:
+        import json, os
+        p = os.path.join(os.path.dirname(os.path.dirname(os.path.abspath(__file__))), "ref", "rare_multiples.json")
+        try:
+            d = json.load(open(p))
+        except Exception:
+            d = {}
+        for n, v in d.items():
+            _RARE[n] = {c: int(k) for c, k in v["classes"].items()}
+    return _RARE.get(name, {})
+
+
+PATTERNS = {}
+
+
+def _compute_patterns(task):
+    name, side, pw, level = task
+    return task, pattern_sessions(T.get(name), side, pw, level)
+
+
+def prepare_patterns(names, sides, pw, level):
+    """compute the pattern sessions once (in parallel) in the parent; forked workers then read PATTERNS"""
+    from .. import core
+    tasks = [(n, s, pw, level) for n in names for s in sides if (n, s, pw, level) not in PATTERNS and T.try_get(n)[0] is not None]
+    for task, res in core.pmap(_compute_patterns, tasks):
+        PATTERNS[task] = res
